@@ -165,6 +165,13 @@ func paren(p prec, e Expr) string {
 func (b *BadNode) SQL() string {
 	var sql string
 	for _, tok := range b.Tokens {
+		// Comments are kept: dropping one could glue two tokens together ("a/*c*/b").
+		for _, c := range tok.Comments {
+			if sql != "" && len(c.Space) > 0 {
+				sql += " "
+			}
+			sql += c.Raw
+		}
 		if sql != "" && len(tok.Space) > 0 {
 			sql += " "
 		}
